@@ -33,6 +33,9 @@ pub enum Att {
     Err(&'static str),
     /// close the connection without answering
     Close,
+    /// EXECUTE only: the node says it does not know the statement (the driver re-prepares and repeats once,
+    /// transparently; that repeat is the next frame of the script)
+    Unprepared,
 }
 
 /// error classes of the property statement
@@ -198,6 +201,13 @@ impl Handler for Scripted {
             }
             Att::Close => {
                 rq.conn.close(CloseHow::Rst);
+            }
+            Att::Unprepared => {
+                self.mark_answered(op, attempt);
+                match &*rq.request {
+                    Request::Execute { id, .. } => rq.error(ErrorBody::unprepared(id)),
+                    _ => rq.error(err_body("overloaded", consistency)),
+                }
             }
         }
     }
@@ -487,11 +497,19 @@ fn gen_c06_ops(rng: &mut Rng, n: usize) -> Vec<Op> {
         if rng.chance(2, 3) {
             script.push(Att::Ok);
         }
+        let api = *rng.pick(&[Api::QueryUnpaged, Api::ExecuteUnpaged, Api::Batch, Api::QuerySinglePage, Api::QueryIter, Api::ExecuteIter]);
+        if matches!(api, Api::ExecuteUnpaged | Api::ExecuteIter) && rng.chance(1, 3) {
+            // a thrashing statement cache: UNPREPARED several times in a row, each PREPARE in between succeeding
+            let n = rng.usize(1, 6);
+            let mut s2: Vec<Att> = (0..n).map(|_| Att::Unprepared).collect();
+            s2.extend(script.into_iter());
+            script = s2;
+        }
         v.push(Op {
             op: next_op(),
             script,
             idempotent: rng.chance(1, 3),
-            api: *rng.pick(&[Api::QueryUnpaged, Api::ExecuteUnpaged, Api::Batch, Api::QuerySinglePage, Api::QueryIter, Api::ExecuteIter]),
+            api,
             cl: *rng.pick(&[Consistency::One, Consistency::Quorum, Consistency::LocalQuorum, Consistency::All, Consistency::Two]),
             lead: 0,
         });
@@ -531,6 +549,32 @@ fn judge_c06(o: &mut Outcome, ops: &[Op], policy: u8, r: &CaseOut) {
         }
         if frames.is_empty() {
             o.inconclusive("a request produced no frame at any node");
+            continue;
+        }
+        // UNPREPARED answers: the driver repeats the frame ONCE after re-preparing, without asking the policy; an
+        // attempt is therefore one frame, or two when the first was answered UNPREPARED. The number of ATTEMPTS is
+        // what the policy's decisions bound - UNPREPARED again and again must not multiply frames.
+        if frames.iter().any(|f| f.outcome == Att::Unprepared) {
+            o.class("unprepared:answered-UNPREPARED-by-the-coordinator");
+            let retries = decisions.iter().filter(|d| matches!(d.decision, RetryDecision::RetrySameTarget(_) | RetryDecision::RetryNextTarget(_))).count();
+            let (mut i, mut attempts) = (0usize, 0usize);
+            while i < frames.len() {
+                i += if frames[i].outcome == Att::Unprepared && i + 1 < frames.len() && frames[i + 1].node == frames[i].node { 2 } else { 1 };
+                attempts += 1;
+            }
+            if attempts > 1 + retries {
+                o.violation("c06b:more-frames-than-decisions", format!("request {} reached the nodes {} times = {attempts} attempts (an attempt answered UNPREPARED may be repeated once), but the policy decided only {retries} retries", op.op, frames.len()), replay.clone());
+            }
+            if !op.idempotent {
+                for k in 1..frames.len() {
+                    let prev = &frames[k - 1].outcome;
+                    let safe = matches!(prev, Att::Err(e) if SAFE.contains(e)) || *prev == Att::Unprepared;
+                    if !safe {
+                        o.violation(format!("c06b:{pname}:non-idempotent-resent-after:{}", match prev { Att::Err(e) => e, Att::Close => "broken-connection", _ => "success" }), format!("non-idempotent request {} was sent again (frame {k}) after an attempt that ended with {:?}", op.op, prev), replay.clone());
+                    }
+                }
+            }
+            o.note_add("frames_seen", frames.len() as u64);
             continue;
         }
         // (1) the statement's safety table, from the script alone
@@ -682,7 +726,7 @@ pub fn run_c06_b(ctx: &Ctx) -> Outcome {
     }
     for c in ["api:QueryUnpaged", "api:ExecuteUnpaged", "api:Batch", "api:QuerySinglePage", "api:QueryIter", "api:ExecuteIter", "policy:default", "policy:downgrading", "policy:fallthrough",
         "non-idempotent:resent-after-proof-of-non-application", "non-idempotent:stopped", "decision:retry-same-target", "decision:retry-next-target",
-        "speculative-policy-configured:slow-answer-to-non-idempotent", "paged:script-applies-to-a-later-page"] {
+        "speculative-policy-configured:slow-answer-to-non-idempotent", "paged:script-applies-to-a-later-page", "unprepared:answered-UNPREPARED-by-the-coordinator"] {
         out.require_class(c);
     }
     out
